@@ -2,7 +2,7 @@
 from common import TB_COMMON
 
 PROP = {
-    'lean_modules': ['CapyV.Props.C14'],
+    'lean_modules': ['CapyV.Props.C14', 'CapyV.Props.C14Fit'],
     'level': 'proof',
     "trusted_base": TB_COMMON + [
         'the type table: `tys[expr]` of the real front end is what the model calls typeOf (pointer-ness and pointer '
